@@ -277,8 +277,10 @@ def entryPairs (a b : List (String × Nat)) : Option (List (Nat × Nat)) :=
   if a.length ≠ b.length then none else
   a.mapM fun (name, i) => (b.find? (·.1 = name)).map fun e => (i, e.2)
 
-def showBisim (r : BisimResult) : String :=
-  if r.ok then s!"pairs={r.pairs}" else s!"pairs={r.pairs} word={if r.witness.isEmpty then r.word else r.witness} why={r.why}"
+def showBisim (rr : BisimResult × Nat) (names : List String := []) : String :=
+  let r := rr.1
+  if r.ok then s!"pairs={r.pairs}"
+  else s!"pairs={r.pairs} entry={names.getD rr.2 "-"} word={if r.witness.isEmpty then r.word else r.witness} why={r.why}"
 
 def stageChecks (prog : String) (pd : ParsedDef) (dump : Dump) : List String := Id.run do
   let mut out : List String := []
@@ -295,28 +297,28 @@ def stageChecks (prog : String) (pd : ParsedDef) (dump : Dump) : List String := 
     | some pairs =>
       let pairs := if pairs.isEmpty then [(0, 0)] else pairs
       let r := bisim c.full dump.full accEqExact pairs
-      out := out ++ [checkLine prog "bisim.full" r.ok (showBisim r ++ s!" states={c.full.length}/{dump.full.length}")]
+      out := out ++ [checkLine prog "bisim.full" r.1.ok (showBisim r (c.entries0.map (·.1)) ++ s!" states={c.full.length}/{dump.full.length}")]
     -- model vs dumped: simplified DFA
     match entryPairs c.entries dump.entries1 with
     | none => out := out ++ [checkLine prog "entries1" false s!"model {c.entries} dump {dump.entries1}"]
     | some pairs =>
       let pairs := if pairs.isEmpty then [(0, 0)] else pairs
       let r := bisim c.dfa dump.simp accEqExact pairs
-      out := out ++ [checkLine prog "bisim.simplified" r.ok (showBisim r ++ s!" states={c.dfa.length}/{dump.simp.length}")]
+      out := out ++ [checkLine prog "bisim.simplified" r.1.ok (showBisim r (c.entries.map (·.1)) ++ s!" states={c.dfa.length}/{dump.simp.length}")]
     -- dumped full vs dumped simplified (simplify preserves behaviour, on the real artefacts)
     match entryPairs dump.entries0 dump.entries1 with
     | none => out := out ++ [checkLine prog "entries01" false ""]
     | some pairs =>
       let pairs := if pairs.isEmpty then [(0, 0)] else pairs
       let r := bisim dump.full dump.simp accEqExact pairs
-      out := out ++ [checkLine prog "bisim.simplify" r.ok (showBisim r)]
+      out := out ++ [checkLine prog "bisim.simplify" r.1.ok (showBisim r (dump.entries0.map (·.1)))]
     -- right contexts
     if c.ctxs.length ≠ dump.ctxs.length then
       out := out ++ [checkLine prog "ctx.count" false s!"model {c.ctxs.length} dump {dump.ctxs.length}"]
     else
       for (i, (a, b)) in (List.range c.ctxs.length).zip (c.ctxs.zip dump.ctxs) do
         let r := bisim a b accEqExact [(0, 0)]
-        out := out ++ [checkLine prog s!"bisim.ctx{i}" r.ok (showBisim r)]
+        out := out ++ [checkLine prog s!"bisim.ctx{i}" r.1.ok (showBisim r)]
         out := out ++ [checkLine prog s!"wf.ctx{i}" (ctxWF b) ""]
     -- well-formedness of the dumped machine (hypotheses of the run-time theorem)
     let wf := machineWF dump.simp dump.entries1 dump.ctxs.length
